@@ -683,7 +683,7 @@ func describeC20(sc *c20Scenario) any {
 	for i, op := range sc.Ops {
 		s := fmt.Sprintf("%d:%s", i, envOpNames[op.Kind])
 		if op.Kind < EOVerify {
-			s += fmt.Sprintf("(req=%s remote=%v tsa=%v early=%d signer=%d late=%d tsahow=%d)", []string{"A", "B"}[op.Req], op.Remote, op.WithTSA, op.EarlyHow, op.SignerHow, op.LateHow, op.TSAHow)
+			s += fmt.Sprintf("(req=%s remote=%v tsa=%v early=%d signer=%d late=%d reenter=%v tsahow=%d)", []string{"A", "B"}[op.Req], op.Remote, op.WithTSA, op.EarlyHow, op.SignerHow, op.LateHow, op.Reenter, op.TSAHow)
 		}
 		ops = append(ops, s)
 	}
